@@ -48,7 +48,10 @@ def _protoc(gen):
         stamp = os.path.join(gen, proto.replace("/", "_") + ".stamp")
         want = open(src).read()
         if not os.path.exists(stamp) or open(stamp).read() != want:
-            rc, o, e = sh(["protoc", "--cpp_out=" + gen, "-I" + REPO, src])
+            # the way muduo's CMakeLists does it: the proto's own directory is the import root
+            # (rpcservice.proto says `import "rpc.proto"`), output next to where the sources expect the headers
+            os.makedirs(os.path.join(gen, sub), exist_ok=True)
+            rc, o, e = sh(["protoc", "--cpp_out=" + os.path.join(gen, sub), "-I" + os.path.dirname(src), src])
             if rc != 0:
                 raise BuildError("protoc " + proto, o + e)
             with open(stamp, "w") as f:
